@@ -125,6 +125,11 @@ pub fn emit(label: &str, obj: u64, d: i64) {
     emit_kv(label, obj, d, Vec::new());
 }
 
+/// Number of events recorded so far (monotone; lets a driver notice activity on other threads)
+pub fn event_seq() -> u64 {
+    SINK.lock().unwrap_or_else(|e| e.into_inner()).seq
+}
+
 /// Take all recorded events
 pub fn take_events() -> Vec<Ev> {
     let mut g = SINK.lock().unwrap_or_else(|e| e.into_inner());
